@@ -1,0 +1,48 @@
+//go:build verif
+// +build verif
+
+package log
+
+// Verification hooks (build tag "verif"); see verif_off.go for the no-op twin.
+
+var verifHook func(point string, args ...interface{})
+
+// SetVerifHook installs the observer for crash/ordering points inside log operations.
+func SetVerifHook(f func(point string, args ...interface{})) { verifHook = f }
+
+func verifPoint(point string, args ...interface{}) {
+	if h := verifHook; h != nil {
+		h(point, args...)
+	}
+}
+
+// VerifCloseNoSync unmaps all segments WITHOUT committing, which is what a
+// process kill does to the mappings. The Log must not be used afterwards.
+func (l *Log) VerifCloseNoSync() {
+	for s := l.last; s != nil; s = s.prev {
+		_ = s.file.Close()
+	}
+}
+
+// VerifSyncedIndex returns the last index that a process kill at this
+// instant would preserve (entries counted by the segment headers on file).
+func (l *Log) VerifSyncedIndex() uint64 {
+	s := l.last
+	n := s.synced
+	if n < 0 || n > s.n {
+		n = s.offset(0)
+	}
+	return s.prevIndex + uint64(n)
+}
+
+// VerifSegments returns (prevIndex, n, synced) of every segment, first to last.
+func (l *Log) VerifSegments() [][3]int64 {
+	var out [][3]int64
+	for s := l.first; s != nil; s = s.next {
+		out = append(out, [3]int64{int64(s.prevIndex), int64(s.n), int64(s.synced)})
+		if s == l.last {
+			break
+		}
+	}
+	return out
+}
